@@ -25,7 +25,7 @@ LEVEL_TEXT = ("Scenarios restricted to the v1 vocabulary (discrete/continuous re
               "be identical. Runs with the grid section omitted / optional sections omitted must equal the explicit ones.")
 LEVEL_NOTE = "The TOML text is produced by the harness's own writer and read by ladim through tomli; with diffusion > 0 the tracker's rng is re-seeded identically by the harness in every run so that outputs are comparable exactly."
 RULE = ("case = scenario spec; renderings yaml2, toml2, yaml1 (+ grid-omitted, sections-omitted variants). Non-trivial: several release times or continuous release and moving water; distinct by spec.")
-MANDATORY = ["v1_grid_file_omitted_pairs", "yaml_anchor_and_alias", "steps_not_multiple_of_output_period", "wildcard_names_of_unequal_length", "v1_file_names_in_files_section", "v1_discrete_with_release_frequency", "configure_dicts_compared", "plugin_gridforce", "version_key_omitted", "yaml2_vs_toml2", "yaml2_vs_yaml1", "grid_omitted_pairs", "wildcard_forcing", "optional_sections_omitted_pairs", "continuous", "discrete", "subgrid", "diffusion_seeded",
+MANDATORY = ["extra_forcing_variable", "version_key_as_string_with_decimal_point", "v1_grid_file_omitted_pairs", "yaml_anchor_and_alias", "steps_not_multiple_of_output_period", "wildcard_names_of_unequal_length", "v1_file_names_in_files_section", "v1_discrete_with_release_frequency", "configure_dicts_compared", "plugin_gridforce", "version_key_omitted", "yaml2_vs_toml2", "yaml2_vs_yaml1", "grid_omitted_pairs", "wildcard_forcing", "optional_sections_omitted_pairs", "continuous", "discrete", "subgrid", "diffusion_seeded",
              "particle_variable_column", "values_compared"]
 ASSUMPTIONS = ["only what the v1 vocabulary can express"]
 MIN_CASES_PER_PROCESS = 4  # several runs share one interpreter: state leaking between runs (module caches, shared defaults) becomes observable
@@ -82,8 +82,8 @@ def spec_for(case: dict[str, Any]) -> dict[str, Any]:
     return dict(dt=dt, ns=ns, cont=cont, freq=int(rng.integers(1, 3)), subgrid=[2, 17, 1, 13] if case["idx"] % 3 == 0 else None,
                 diffusion=float(rng.choice([0.0, 0.0, 25.0])), advection=str(rng.choice(["EF", "RK2", "RK4"])),
                 nfiles=nfiles, wildcard=bool(nfiles > 1 or rng.random() < 0.5), reference="2019-12-31T00:00:00" if rng.random() < 0.5 else None,
-                cohort=bool(rng.random() < 0.6), ibm=bool(rng.random() < 0.5), outper_spelling=int(rng.integers(2)), seed=int(rng.integers(10**6)),
-                outper_mult=2 if (case["idx"] // 2) % 2 else 1, version_key=bool(rng.random() < 0.5), plugin_gridforce=bool(case["idx"] % 4 == 1), odd_names=bool(nfiles > 1 and case["idx"] % 3 != 2))
+                cohort=bool(rng.random() < 0.6), ibm=bool(rng.random() < 0.5 or case["idx"] % 4 == 3), xf=bool(case["idx"] % 4 == 3), outper_spelling=int(rng.integers(2)), seed=int(rng.integers(10**6)),
+                outper_mult=2 if (case["idx"] // 2) % 2 else 1, version_key=bool(rng.random() < 0.5 or case["idx"] % 4 == 2), vsp=case["idx"] % 4, plugin_gridforce=bool(case["idx"] % 4 == 1), odd_names=bool(nfiles > 1 and case["idx"] % 3 != 2))
 
 
 def make_files(sp: dict[str, Any], wd: Path):
@@ -100,6 +100,7 @@ def make_files(sp: dict[str, Any], wd: Path):
     w = W.write_world(wd / "world", dict(imax=20, jmax=15, N=3, t0=C.T0, frames=[f * dt for f in fr], files=counts,
                                           vel=dict(kind="gyre", A=spd, kx=0.4, ky=0.45, ratio=0.8, frame_amp=[1.0 + 0.1 * k for k in range(nfr)]),
                                           metric=dict(kind="uniform", dx=1000.0, dy=1000.0), h=dict(kind="flat", h=80.0),
+                                          scalars=dict(temp=dict(kind="xyt", a=5.0, b=0.3, c=-0.2, e=0.0)) if sp.get("xf") else {},
                                           # names of unequal length: the first file in sorted order is not the shortest name
                                           file_names=(["f_0001_spinup.nc", "f_0002.nc", "f_0010.nc"][:len(counts)] if sp["odd_names"] else None)))
     from netCDF4 import Dataset  # noqa: PLC0415
@@ -133,11 +134,11 @@ def renderings(sp: dict[str, Any], wd: Path, w, rls: Path, names: list[str]) -> 
     forcing_file = w["pattern"] if sp["wildcard"] else str(w["files"][0])
     opdt = dt * sp.get("outper_mult", 1)
     outper_v = [opdt, "s"] if sp["outper_spelling"] == 0 else opdt
-    ivars = ["pid", "X", "Y", "Z"] + (["age"] if sp["ibm"] else [])
+    ivars = ["pid", "X", "Y", "Z"] + (["age"] if sp["ibm"] else []) + (["temp"] if sp.get("xf") else [])
     pvars = ["release_time"] + (["cohort"] if sp["cohort"] else [])
     attrs = dict(pid=dict(long_name="particle identifier"), X=dict(long_name="X"), Y=dict(long_name="Y"), Z=dict(long_name="depth", units="m"),
-                 age=dict(long_name="age"), release_time=dict(long_name="release time", units="seconds since reference_time"), cohort=dict(long_name="cohort"))
-    nct = dict(pid="i4", X="f8", Y="f8", Z="f8", age="f8", release_time="f8", cohort="f8")
+                 age=dict(long_name="age"), temp=dict(long_name="temperature"), release_time=dict(long_name="release time", units="seconds since reference_time"), cohort=dict(long_name="cohort"))
+    nct = dict(pid="i4", X="f8", Y="f8", Z="f8", age="f8", temp="f8", release_time="f8", cohort="f8")
     shared = bool(sp["seed"] % 2)
     if shared:
         # X and Y described by one and the same mapping object: the YAML files then carry an anchor and an alias (&id001 / *id001)
@@ -148,7 +149,8 @@ def renderings(sp: dict[str, Any], wd: Path, w, rls: Path, names: list[str]) -> 
 
     gfmod = str(wd / "gf_plugin.py") if sp["plugin_gridforce"] else "ladim.ROMS"
     # ---- version 2 (natural spelling)
-    v2: dict[str, Any] = dict(version=2) if sp["version_key"] else {}
+    vsp = sp["vsp"]  # the version key as integer, float, or (quoted) string with and without a decimal point, as in examples/line/line.toml
+    v2: dict[str, Any] = dict(version=[2, 2.0, "2.0", "2"][vsp]) if sp["version_key"] else {}
     v2["time"] = dict(start=start, stop=stop, dt=dt)
     if sp["reference"]:
         v2["time"]["reference"] = sp["reference"]
@@ -160,6 +162,10 @@ def renderings(sp: dict[str, Any], wd: Path, w, rls: Path, names: list[str]) -> 
     v2["state"] = dict(instance_variables=dict(age="float") if sp["ibm"] else {},
                        particle_variables=dict(release_time="time", **({"cohort": "float"} if sp["cohort"] else {})),
                        default_values=dict(age=0) if sp["ibm"] else {})
+    if sp.get("xf"):  # a scalar forcing field carried by the particles (v1: gridforce.extra_forcing + ibm.variables)
+        v2["forcing"]["extra_forcing"] = ["temp"]
+        v2["state"]["instance_variables"]["temp"] = "float"
+        v2["state"]["default_values"]["temp"] = 0
     v2["tracker"] = dict(advection=sp["advection"])
     if sp["diffusion"]:
         v2["tracker"]["diffusion"] = sp["diffusion"]
@@ -191,7 +197,9 @@ def renderings(sp: dict[str, Any], wd: Path, w, rls: Path, names: list[str]) -> 
         # valid v1: a discrete release that still carries a release_frequency entry (the docs show both keys side by side)
         v1["particle_release"].update(release_type="discrete", release_frequency=sp["freq"] * dt)
     if sp["ibm"]:
-        v1["ibm"] = dict(ibm_module=C.REC_IBM, variables=["age"], age=True, log=False)
+        v1["ibm"] = dict(ibm_module=C.REC_IBM, variables=["age"] + (["temp"] if sp.get("xf") else []), age=True, log=False)
+    if sp.get("xf"):
+        v1["gridforce"]["extra_forcing"] = ["temp"]
     for k in ivars + pvars:
         v1["output_variables"][k] = dict(ncformat=nct[k], **attrs[k])
     if shared:
@@ -201,7 +209,7 @@ def renderings(sp: dict[str, Any], wd: Path, w, rls: Path, names: list[str]) -> 
         v1["files"]["input_file"] = v1["gridforce"].pop("input_file")
         v1["files"]["gridfile"] = v1["gridforce"].pop("gridfile")
     if sp["version_key"]:
-        v1 = dict(version=1, **v1)
+        v1 = dict(version=[1, 1.0, "1.0", "1"][vsp], **v1)
     return dict(yaml2=v2, yaml1=v1)
 
 
@@ -224,7 +232,7 @@ def norm_conf(c: dict[str, Any]) -> dict[str, Any]:
         ibm_module=(c.get("ibm") or {}).get("module"), output_period=int(normalize_period(out["output_period"]) / one),
         out_instance=sorted((k, v["encoding"]["datatype"]) for k, v in out["instance_variables"].items()),
         out_particle=sorted((k, v["encoding"]["datatype"]) for k, v in (out.get("particle_variables") or {}).items()),
-        skip_initial=bool(out.get("skip_initial", False)), warm_start_file=(c.get("warm_start") or {}).get("filename"))
+        extra_forcing=sorted(c["forcing"].get("extra_forcing") or []), skip_initial=bool(out.get("skip_initial", False)), warm_start_file=(c.get("warm_start") or {}).get("filename"))
 
 
 def read_all(path: Path):
@@ -364,6 +372,8 @@ def run_case(case: dict[str, Any], wd: Path) -> dict[str, Any]:
     sit["v1_file_names_in_files_section"] = int(sp["seed"] % 3 == 0)
     sit["v1_discrete_with_release_frequency"] = int(not sp["cont"] and sp["seed"] % 2 == 1)
     sit["version_key_omitted"] = int(not sp["version_key"])
+    sit["extra_forcing_variable"] = int(bool(sp.get("xf")))
+    sit["version_key_as_string_with_decimal_point"] = int(sp["version_key"] and sp["vsp"] == 2)
     base = outs.get("yaml2")
     if base is not None:
         for other, sname in (("toml2", "yaml2_vs_toml2"), ("yaml1", "yaml2_vs_yaml1"), ("nogrid", "grid_omitted_pairs"), ("yaml1_nogrid", "v1_grid_file_omitted_pairs")):
